@@ -1,5 +1,6 @@
 pub mod c01;
 pub mod c02;
+pub mod c10;
 pub mod c12;
 pub mod c21;
 pub mod c23;
@@ -11,6 +12,7 @@ pub fn get(id: &str) -> Option<&'static dyn Property> {
     match id {
         "C01" => Some(&c01::C01),
         "C02" => Some(&c02::C02),
+        "C10" => Some(&c10::C10),
         "C12" => Some(&c12::C12),
         "C21" => Some(&c21::C21),
         "C23" => Some(&c23::C23),
@@ -19,4 +21,4 @@ pub fn get(id: &str) -> Option<&'static dyn Property> {
     }
 }
 
-pub const ALL_IDS: &[&str] = &["C01", "C02", "C12", "C21", "C23", "C35"];
+pub const ALL_IDS: &[&str] = &["C01", "C02", "C10", "C12", "C21", "C23", "C35"];
